@@ -239,7 +239,12 @@ func (e *e1) resolveCas(op *Op, d Doc) {
 	}
 	if op.Kind == "SetWithMeta" || op.Kind == "DeleteWithMeta" {
 		op.NewCas = e.maxCas + 1 + uint64(op.Amt)
-		if op.Amt%11 == 5 && d.Exists && d.Cas != 0 {
+		if op.Amt%11 == 8 {
+			// well ahead of the local clock (a mutation replicated from a cluster whose clock runs ahead):
+			// the ordinary writes that follow carry lower CAS values than this document
+			op.NewCas = e.maxCas + 5_000_000_000 + uint64(op.Amt)
+			e.probe("withmeta.cas-ahead-of-clock")
+		} else if op.Amt%11 == 5 && d.Exists && d.Cas != 0 {
 			// the caller-chosen CAS is exactly the one the document already carries (a replayed mutation)
 			op.NewCas = d.Cas
 			e.probe("withmeta.same-cas-as-stored")
